@@ -1,7 +1,10 @@
 pub mod c01;
+pub mod c02;
+pub mod c03;
+pub mod common;
 
 use crate::engine::Check;
 
 pub fn all() -> Vec<Box<dyn Check>> {
-    vec![Box::new(c01::C01)]
+    vec![Box::new(c01::C01), Box::new(c02::C02), Box::new(c03::C03)]
 }
